@@ -50,7 +50,7 @@ BODY_CLASSES = [
     "empty_object", "unrelated_keys", "json_array", "json_number", "json_string", "json_true", "json_null",
     "empty_body", "html", "torn", "flipped_byte", "invalid_utf8", "bom_prefixed", "utf16", "data_scalar", "data_list",
     "whitespace_padded", "errors_same_message", "data_empty_object", "data_false", "data_empty_and_empty_errors", "empty_errors_null_data", "errors_null_probe", "errors_string_probe",
-    "errors_drawn",
+    "errors_drawn", "raw_control_char",
 ]
 QUICK_STATUSES = [200, 201, 204, 299, 100, 199, 300, 301, 304, 400, 401, 404, 429, 500, 502, 503, 599]
 VIAS = ["execute", "get_item", "list_items", "ping", "create_item", "search_now"]
@@ -116,6 +116,12 @@ def make_body(cls: str, data: Any, knob: int) -> bytes:
         if rr.random() < 0.2:
             doc["extensions"] = {"trace": 1}
         return J(doc)
+    if cls == "raw_control_char":
+        # otherwise well-formed, but with one raw control byte inside a string (a value, an error message, a key): not JSON
+        ctl = bytes([[0x09, 0x0A, 0x00, 0x1F, 0x0D, 0x08][knob % 6]])
+        doc = [J({"data": data, "extensions": {"note": "a@@b"}}), J({"errors": [{"message": "line1@@line2"}], "data": data}),
+               J({"data": data, "k@@ey": 1}), J({"data": {"x": "@@"}})][(knob // 6) % 4]
+        return doc.replace(b"@@", ctl)
     if cls == "data_empty_object":
         return J({"data": {}})
     if cls == "data_false":
@@ -201,7 +207,7 @@ def simple_call(via, k):
     if via == "ping":
         return {"via": via, "args": {}, "multipart": False, "kw": kw}
     if via == "search_now":
-        return {"via": via, "args": {"query": ("str", "q%d" % k), "variables": ("int", k), "data": ("unset",)}, "multipart": False, "kw": kw}
+        return {"via": via, "args": {"query": ("str", "q%d" % k), "variables": ("int", k), "data": ("unset",), "response": ("str", "r%d" % k)}, "multipart": False, "kw": kw}
     if via == "create_item":
         return {"via": via, "args": {"input": ("model", "ItemInput", {"name": ("str", "n%d" % k), "count": ("int", k)}, False)},
                 "multipart": False, "kw": kw}
@@ -312,8 +318,8 @@ def judge(cfg, recs, server, info, sent, res: RunResult, variant):
                                 w["message"], w.get("locations"), w.get("path"), w.get("extensions")) or g["original"] != w:
                             V("multi-error-content", "%s: error %s != reported %s" % (tag, _short(g), _short(w)), **key)
                             break
-                if e.data != exp[2]:
-                    V("multi-error-data", "%s: .data %s != partial data %s" % (tag, _short(e.data), _short(exp[2])), **key)
+                if oc[2]["data"] != exp[2]:          # (the record taken when the call returned; the caller has since edited the live object)
+                    V("multi-error-data", "%s: .data %s != partial data %s" % (tag, _short(oc[2]["data"]), _short(exp[2])), **key)
         else:  # data
             D = exp[1]
             if via == "execute":
